@@ -233,7 +233,7 @@ func inlineCandidate(f *ssa.Function) bool {
 		for _, in := range b.Instrs {
 			n++
 			switch in.(type) {
-			case *ssa.Defer, *ssa.Go, *ssa.RunDefers, *ssa.MakeClosure:
+			case *ssa.Defer, *ssa.Go, *ssa.RunDefers:
 				return false
 			}
 		}
@@ -243,6 +243,11 @@ func inlineCandidate(f *ssa.Function) bool {
 	}
 	if f.Signature.Variadic() {
 		return false
+	}
+	for i := 0; i < f.Signature.Results().Len(); i++ {
+		if _, isFunc := f.Signature.Results().At(i).Type().Underlying().(*types.Signature); isFunc {
+			return false // option constructors and the like are summarised, not expanded
+		}
 	}
 	inlCand[f] = 0
 	if SummGuardedSend(f) != nil {
@@ -326,7 +331,19 @@ func (fp *FnPaths) walkAt(s *Seg, b *ssa.BasicBlock, start int, from *ssa.BasicB
 				if k == 0 {
 					c = s.clone()
 				}
-				c.Facts = append(c.Facts, Fact{Cond: t.Cond, Truth: truth, Ord: n})
+				cond := t.Cond
+				if len(c.inl) > 0 {
+					// a test of an expanded helper's boolean result is a test of what it returned
+					switch cond.(type) {
+					case *ssa.Call, *ssa.Extract:
+						if rc := c.Resolve(cond); rc != cond {
+							if _, isConst := rc.(*ssa.Const); !isConst {
+								cond = rc
+							}
+						}
+					}
+				}
+				c.Facts = append(c.Facts, Fact{Cond: cond, Truth: truth, Ord: n})
 				fp.walkAt(c, succ, 0, b, n, stack)
 			}
 			return
@@ -686,7 +703,18 @@ func (s *Seg) PhiIn(phi *ssa.Phi) ssa.Value {
 	if s.End != b || len(s.Blocks) == 0 {
 		return nil
 	}
-	last := s.Blocks[len(s.Blocks)-1]
+	// the predecessor is the last block of the segment's own function (blocks of expanded
+	// helpers may follow it in the list)
+	var last *ssa.BasicBlock
+	for i := len(s.Blocks) - 1; i >= 0; i-- {
+		if s.Blocks[i].Parent() == b.Parent() {
+			last = s.Blocks[i]
+			break
+		}
+	}
+	if last == nil {
+		return nil
+	}
 	for i, pb := range b.Preds {
 		if pb == last {
 			return phi.Edges[i]
@@ -1229,11 +1257,50 @@ func paramIndex(fn *ssa.Function, p *ssa.Parameter) int {
 	return -1
 }
 
-// isCtxDone recognises a value produced by context.Context.Done().
-func isCtxDone(v ssa.Value) bool {
-	c, ok := v.(*ssa.Call)
-	return ok && isCtxDoneCall(&c.Call)
+// doneCallOf returns the context.Context.Done() call that produced v, looking through local or
+// captured cells assigned exactly once (`done := ctx.Done()` hoisted out of a loop or a goroutine).
+func doneCallOf(v ssa.Value, d int) *ssa.Call {
+	if d > 6 || v == nil {
+		return nil
+	}
+	switch t := v.(type) {
+	case *ssa.Call:
+		if isCtxDoneCall(&t.Call) {
+			return t
+		}
+	case *ssa.ChangeType:
+		return doneCallOf(t.X, d+1)
+	case *ssa.FreeVar:
+		if b := BindingOf(t); b != nil {
+			return doneCallOf(b, d+1)
+		}
+	case *ssa.UnOp:
+		if t.Op != token.MUL {
+			return nil
+		}
+		cell := t.X
+		if fv, ok := cell.(*ssa.FreeVar); ok {
+			cell = BindingOf(fv)
+		}
+		if a, ok := cell.(*ssa.Alloc); ok {
+			var only ssa.Value
+			n := 0
+			for _, ref := range *a.Referrers() {
+				if st, ok := ref.(*ssa.Store); ok && st.Addr == ssa.Value(a) {
+					n++
+					only = st.Val
+				}
+			}
+			if n == 1 {
+				return doneCallOf(only, d+1)
+			}
+		}
+	}
+	return nil
 }
+
+// isCtxDone recognises a value produced by context.Context.Done().
+func isCtxDone(v ssa.Value) bool { return doneCallOf(v, 0) != nil }
 
 func isCtxDoneCall(c *ssa.CallCommon) bool {
 	m := IfaceMethod(c)
@@ -1242,7 +1309,7 @@ func isCtxDoneCall(c *ssa.CallCommon) bool {
 
 // ctxOfDone returns the context value whose Done() channel v is.
 func ctxOfDone(v ssa.Value) ssa.Value {
-	if c, ok := v.(*ssa.Call); ok && isCtxDoneCall(&c.Call) {
+	if c := doneCallOf(v, 0); c != nil {
 		return c.Call.Value
 	}
 	return nil
